@@ -82,7 +82,7 @@ var bg = context.Background()
 func pick(r *hx.Rand, xs ...int) int { return xs[r.Intn(len(xs))] }
 
 func genMq(r *hx.Rand, tier string) string {
-	capacity := pick(r, 2, 2, 2, 4, 4, 8, 1, 3, 0, 16)
+	capacity := pick(r, 2, 2, 2, 2, 4, 4, 4, 8, 8, 16, 2, 4, 2, 4, 8, 1, 3, 0, 6)
 	ext := pick(r, 0, 0, 1, 2, -1, -1)
 	n := 4 + r.Intn(28)
 	if tier == "thorough" {
